@@ -48,9 +48,12 @@ def build_miter(
         pairwise_xor.inputs,
         name=PAIRWISE_XOR_NAME,
     )
-    miter.emplace_gate(
-        OR_NAME, gate.OR, tuple(miter.get_block(PAIRWISE_XOR_NAME).outputs)
-    )
+    xor_outputs = tuple(miter.get_block(PAIRWISE_XOR_NAME).outputs)
+    if len(xor_outputs) == 1:
+        # OR needs at least two operands to be evaluated.
+        miter.emplace_gate(OR_NAME, gate.IFF, xor_outputs)
+    else:
+        miter.emplace_gate(OR_NAME, gate.OR, xor_outputs)
     miter.set_outputs([OR_NAME])
 
     return miter
